@@ -228,4 +228,191 @@ theorem clipLoop_spec (b : Aabb3 K) (o d : V3 K) (hb : ValidBox b) :
 
 end clip
 
+
+section diff
+variable (sq : K → K)
+set_option linter.style.haveILetI false
+
+/-! ## specification vocabulary and loop invariant for `Aabb::difference_with_cut_sequence` -/
+
+/-- open box (interior) membership -/
+def IntMem (b : Aabb3 K) (p : V3 K) : Prop := ∀ i : Fin 3, b.mins.get i.val < p.get i.val ∧ p.get i.val < b.maxs.get i.val
+/-- two boxes share no interior point -/
+def InteriorDisjoint (a b : Aabb3 K) : Prop := ∀ p, ¬ (IntMem a p ∧ IntMem b p)
+
+theorem intMem_bmem (b : Aabb3 K) (p : V3 K) (h : IntMem b p) : BMem b p :=
+  (bmem_iff b p).mpr fun i => ⟨(h i).1.le, (h i).2.le⟩
+
+/-- cutting a box `B` on axis `i` at `c ∈ [B.mins[i], B.maxs[i]]` -/
+theorem cut_cover (B : Aabb3 K) (i : Fin 3) (c : K) (h1 : B.mins.get i.val ≤ c) (h2 : c ≤ B.maxs.get i.val) (p : V3 K) :
+    BMem B p ↔ (BMem ⟨B.mins, B.maxs.set i.val c⟩ p ∨ BMem ⟨B.mins.set i.val c, B.maxs⟩ p) := by
+  simp only [bmem_iff, get_set]
+  constructor
+  · intro h
+    rcases le_total (p.get i.val) c with hc | hc
+    · left; intro j; by_cases hj : j = i
+      · subst hj; simp only [if_true]; exact ⟨(h j).1, hc⟩
+      · simp only [if_neg hj]; exact h j
+    · right; intro j; by_cases hj : j = i
+      · subst hj; simp only [if_true]; exact ⟨hc, (h j).2⟩
+      · simp only [if_neg hj]; exact h j
+  · rintro (h | h) <;> intro j <;> have hj' := h j <;> by_cases hj : j = i
+    · subst hj; simp only [if_true] at hj'; exact ⟨hj'.1, hj'.2.trans h2⟩
+    · simp only [if_neg hj] at hj'; exact hj'
+    · subst hj; simp only [if_true] at hj'; exact ⟨h1.trans hj'.1, hj'.2⟩
+    · simp only [if_neg hj] at hj'; exact hj'
+
+theorem cut_disjoint (B : Aabb3 K) (i : Fin 3) (c : K) :
+    InteriorDisjoint ⟨B.mins, B.maxs.set i.val c⟩ ⟨B.mins.set i.val c, B.maxs⟩ := by
+  rintro p ⟨h1, h2⟩
+  have a := (h1 i).2; have b := (h2 i).1
+  simp only [get_set, if_true] at a b
+  exact lt_asymm a b
+
+theorem cut_int_left (B : Aabb3 K) (i : Fin 3) (c : K) (h2 : c ≤ B.maxs.get i.val) (p : V3 K)
+    (h : IntMem ⟨B.mins, B.maxs.set i.val c⟩ p) : IntMem B p := by
+  intro j; have hj' := h j; simp only [get_set] at hj'
+  by_cases hj : j = i
+  · subst hj; simp only [if_true] at hj'; exact ⟨hj'.1, lt_of_lt_of_le hj'.2 h2⟩
+  · simp only [if_neg hj] at hj'; exact hj'
+
+theorem cut_int_right (B : Aabb3 K) (i : Fin 3) (c : K) (h1 : B.mins.get i.val ≤ c) (p : V3 K)
+    (h : IntMem ⟨B.mins.set i.val c, B.maxs⟩ p) : IntMem B p := by
+  intro j; have hj' := h j; simp only [get_set] at hj'
+  by_cases hj : j = i
+  · subst hj; simp only [if_true] at hj'; exact ⟨lt_of_le_of_lt h1 hj'.1, hj'.2⟩
+  · simp only [if_neg hj] at hj'; exact hj'
+
+/-- loop invariant of `difference_with_cut_sequence` -/
+structure DiffInv (self rhs rest : Aabb3 K) (pieces : List (Aabb3 K)) : Prop where
+  cover : ∀ p, BMem self p ↔ (BMem rest p ∨ ∃ f ∈ pieces, BMem f p)
+  restDisj : ∀ f ∈ pieces, InteriorDisjoint f rest
+  rhsDisj : ∀ f ∈ pieces, InteriorDisjoint f rhs
+  pairwise : pieces.Pairwise InteriorDisjoint
+
+theorem DiffInv.cut {self rhs rest rest' frag : Aabb3 K} {pieces : List (Aabb3 K)} (inv : DiffInv self rhs rest pieces)
+    (hc : ∀ p, BMem rest p ↔ (BMem frag p ∨ BMem rest' p)) (hd : InteriorDisjoint frag rest')
+    (hf : ∀ p, IntMem frag p → IntMem rest p) (hr : ∀ p, IntMem rest' p → IntMem rest p)
+    (hrhs : InteriorDisjoint frag rhs) : DiffInv self rhs rest' (pieces ++ [frag]) := by
+  obtain ⟨cov, rd, rhd, pw⟩ := inv
+  refine ⟨?_, ?_, ?_, ?_⟩
+  · intro p
+    rw [cov p, hc p]
+    simp only [List.mem_append, List.mem_singleton]
+    constructor
+    · rintro ((h | h) | ⟨f, hf', h⟩)
+      · exact Or.inr ⟨frag, Or.inr rfl, h⟩
+      · exact Or.inl h
+      · exact Or.inr ⟨f, Or.inl hf', h⟩
+    · rintro (h | ⟨f, (hf' | rfl), h⟩)
+      · exact Or.inl (Or.inr h)
+      · exact Or.inr ⟨f, hf', h⟩
+      · exact Or.inl (Or.inl h)
+  · intro f hf'
+    simp only [List.mem_append, List.mem_singleton] at hf'
+    rcases hf' with hf' | rfl
+    · rintro p ⟨a, b⟩; exact rd f hf' p ⟨a, hr p b⟩
+    · exact hd
+  · intro f hf'
+    simp only [List.mem_append, List.mem_singleton] at hf'
+    rcases hf' with hf' | rfl
+    · exact rhd f hf'
+    · exact hrhs
+  · rw [List.pairwise_append]
+    refine ⟨pw, List.pairwise_singleton _ _, ?_⟩
+    intro a ha b hb
+    simp only [List.mem_singleton] at hb; subst hb
+    rintro p ⟨x, y⟩; exact rd a ha p ⟨x, hf p y⟩
+
+
+theorem interiorDisjoint_symm {a b : Aabb3 K} (h : InteriorDisjoint a b) : InteriorDisjoint b a :=
+  fun p hp => h p ⟨hp.2, hp.1⟩
+
+/-- coordinates of the `rest` box after iteration `i`, and the invariant -/
+theorem diffStep_inv (self rhs : Aabb3 K) (st : Aabb3.DiffState K) (i : Fin 3)
+    (inv : DiffInv self rhs st.rest st.pieces)
+    (H1 : st.rest.mins.get i.val < rhs.maxs.get i.val) (H2 : rhs.mins.get i.val < st.rest.maxs.get i.val)
+    (H3 : rhs.mins.get i.val ≤ rhs.maxs.get i.val) :
+    letI := fieldNum K sq
+    DiffInv self rhs (Aabb3.diffStep rhs st i).rest (Aabb3.diffStep rhs st i).pieces ∧
+    (∀ j : Fin 3, (Aabb3.diffStep rhs st i).rest.mins.get j.val =
+        (if j = i then max (st.rest.mins.get i.val) (rhs.mins.get i.val) else st.rest.mins.get j.val)) ∧
+    (∀ j : Fin 3, (Aabb3.diffStep rhs st i).rest.maxs.get j.val =
+        (if j = i then min (st.rest.maxs.get i.val) (rhs.maxs.get i.val) else st.rest.maxs.get j.val)) := by
+  letI : Num K := fieldNum K sq
+  -- first (min-side) cut
+  have step1 : ∃ st1 : Aabb3.DiffState K,
+      st1 = (if st.rest.mins.get i.val < rhs.mins.get i.val then
+        ({ rest := ⟨st.rest.mins.set i.val (rhs.mins.get i.val), st.rest.maxs⟩
+           pieces := st.pieces ++ [⟨st.rest.mins, st.rest.maxs.set i.val (rhs.mins.get i.val)⟩]
+           cuts := st.cuts ++ [((i.val : Int) + 1, rhs.mins.get i.val)] } : Aabb3.DiffState K) else st) ∧
+      DiffInv self rhs st1.rest st1.pieces ∧
+      (∀ j : Fin 3, st1.rest.mins.get j.val = (if j = i then max (st.rest.mins.get i.val) (rhs.mins.get i.val) else st.rest.mins.get j.val)) ∧
+      st1.rest.maxs = st.rest.maxs := by
+    refine ⟨_, rfl, ?_⟩
+    split_ifs with hc
+    · refine ⟨?_, ?_, rfl⟩
+      · apply inv.cut
+        · exact cut_cover st.rest i _ hc.le H2.le
+        · exact cut_disjoint st.rest i _
+        · exact cut_int_left st.rest i _ H2.le
+        · exact cut_int_right st.rest i _ hc.le
+        · rintro p ⟨a, b⟩
+          have a' := (a i).2; have b' := (b i).1
+          simp only [get_set, if_true] at a'
+          exact lt_asymm a' b'
+      · intro j
+        simp only [get_set]
+        by_cases hj : j = i
+        · subst hj; simp only [if_true]; exact (max_eq_right hc.le).symm
+        · simp only [if_neg hj]
+    · refine ⟨inv, ?_, rfl⟩
+      intro j
+      by_cases hj : j = i
+      · subst hj; simp only [if_true]; exact (max_eq_left (not_lt.mp hc)).symm
+      · simp only [if_neg hj]
+  obtain ⟨st1, hst1, inv1, hmins1, hmaxs1⟩ := step1
+  have hstep : Aabb3.diffStep rhs st i =
+      (if rhs.maxs.get i.val < st1.rest.maxs.get i.val then
+        ({ rest := ⟨st1.rest.mins, st1.rest.maxs.set i.val (rhs.maxs.get i.val)⟩
+           pieces := st1.pieces ++ [⟨st1.rest.mins.set i.val (rhs.maxs.get i.val), st1.rest.maxs⟩]
+           cuts := st1.cuts ++ [(-((i.val : Int) + 1), -(rhs.maxs.get i.val))] } : Aabb3.DiffState K) else st1) := by
+    rw [hst1]; rfl
+  rw [hstep]
+  have hm1 : st1.rest.mins.get i.val ≤ rhs.maxs.get i.val := by
+    rw [hmins1 i]; simp only [if_true]; exact max_le H1.le H3
+  split_ifs with hc
+  · refine ⟨?_, ?_, ?_⟩
+    · apply inv1.cut
+      · intro p; rw [cut_cover st1.rest i _ hm1 hc.le p]; exact Or.comm
+      · exact interiorDisjoint_symm (cut_disjoint st1.rest i _)
+      · exact cut_int_right st1.rest i _ hm1
+      · exact cut_int_left st1.rest i _ hc.le
+      · rintro p ⟨a, b⟩
+        have a' := (a i).1; have b' := (b i).2
+        simp only [get_set, if_true] at a'
+        exact lt_asymm a' b'
+    · intro j; exact hmins1 j
+    · intro j
+      simp only [get_set]
+      by_cases hj : j = i
+      · subst hj; simp only [if_true]; rw [← hmaxs1]; exact (min_eq_right hc.le).symm
+      · simp only [if_neg hj]; rw [hmaxs1]
+  · refine ⟨inv1, hmins1, ?_⟩
+    intro j
+    by_cases hj : j = i
+    · subst hj; simp only [if_true]; rw [← hmaxs1]; exact (min_eq_left (not_lt.mp hc)).symm
+    · simp only [if_neg hj]; rw [hmaxs1]
+
+
+theorem disjointOn_interior (a rhs : Aabb3 K) (i : Fin 3)
+    (h : letI := fieldNum K sq; Aabb3.diffDisjointOn a rhs i.val = true) : InteriorDisjoint a rhs := by
+  simp only [Aabb3.diffDisjointOn, Bool.or_eq_true, decide_eq_true_eq] at h
+  rintro p ⟨x, y⟩
+  have x' := x i; have y' := y i
+  rcases h with h | h <;> linarith [x'.1, x'.2, y'.1, y'.2]
+
+
+end diff
+
 end C17
